@@ -287,7 +287,8 @@ Nearest(v, m, e) ==
             ELSE BNLt(D2, G) \/ (D2 = G /\ MEven(m))
 
 (* does v round to a finite float64:  v < 2^1024 - 2^970 (strictly: the tie rounds to infinity) *)
-MaxFiniteBound == BNMul(BNSub(BNPow2(54), <<1>>), BNPow2(970))
+(* (an operator with a parameter so that TLC does not evaluate it at start-up: it is needed for range-end spellings only) *)
+MaxFiniteBound(unused) == BNMul(BNSub(BNPow2(54), <<1>>), BNPow2(970))
 DigitCount(n) == IF n = <<>> THEN 0
                  ELSE 4 * (Len(n) - 1) + (IF n[Len(n)] >= 1000 THEN 4 ELSE IF n[Len(n)] >= 100 THEN 3
                                           ELSE IF n[Len(n)] >= 10 THEN 2 ELSE 1)
@@ -298,7 +299,7 @@ Finite(v) ==
     ELSE IF v.p10 = 0 /\ 4 * DigitCount(v.n) + v.p2 <= 1000 THEN TRUE
     ELSE IF v.p10 = 0 /\ 3 * (DigitCount(v.n) - 1) + v.p2 > 1030 THEN FALSE
     ELSE BNLt(BNMul(BNMul(v.n, BNPow10(Max(v.p10, 0))), BNPow2(Max(v.p2, 0))),
-              BNMul(BNMul(MaxFiniteBound, BNPow10(Max(0 - v.p10, 0))), BNPow2(Max(0 - v.p2, 0))))
+              BNMul(BNMul(MaxFiniteBound(0), BNPow10(Max(0 - v.p10, 0))), BNPow2(Max(0 - v.p2, 0))))
 
 (* does v round to zero:  v <= 2^-1075  (cheap bounds first: 10^(d-1) <= n < 10^d for d = DigitCount(n)) *)
 RoundsToZero(v) ==
